@@ -13,7 +13,7 @@ import z3
 from .interp import Interp, Loader
 from .models.stdlib import UNIT_AXIOMS, make_models
 from .models.numpy_model import PI_AXIOMS
-from .solver import AbortPath, Obligation, PathState, discharge
+from .solver import AbortPath, CutPath, Obligation, PathState, discharge
 from .values import PyExc, Sym, Unsupported
 
 SRC_ROOT = os.environ.get("PYVC_SRC", "/repo/src")
@@ -75,9 +75,13 @@ class Session:
                 res = PathResult("return", value=v, path=I.path, interp=I)
             except PyExc as e:
                 res = PathResult("raise", exc=e, path=I.path, interp=I)
+            except CutPath:
+                res = PathResult("cut", path=I.path, interp=I)
             except AbortPath:
                 res = None
             except Unsupported as e:
+                if os.environ.get("PYVC_DEBUG"):
+                    traceback.print_exc()
                 res = PathResult("unsupported", path=I.path, interp=I, reason=str(e))
                 self.unsupported.append((label, str(e)))
             except RecursionError:
